@@ -212,24 +212,24 @@ func testForm() *form.Data {
 
 var helperSpecs = []*hspec{
 	// ---- the session's own helpers
-	{name: "Session.SendIQ", spine: []elemSpec{el(nsGenericQ, "q", at("a", "1"))}, variants: 3,
+	{name: "Session.SendIQ", ownErrPath: true, spine: []elemSpec{el(nsGenericQ, "q", at("a", "1"))}, variants: 3,
 		call: func(x *hx) error {
 			resp, err := x.s.SendIQ(x.ctx, genericRequest("g1"))
 			return readResponse(x, resp, err)
 		}},
-	{name: "Session.SendIQElement", spine: []elemSpec{el(nsGenericQ, "q", at("a", "1"))},
+	{name: "Session.SendIQElement", ownErrPath: true, spine: []elemSpec{el(nsGenericQ, "q", at("a", "1"))},
 		call: func(x *hx) error {
 			resp, err := x.s.SendIQElement(x.ctx, genericQ(), stanza.IQ{Type: stanza.SetIQ, To: serverJID})
 			return readResponse(x, resp, err)
 		}},
-	{name: "Session.EncodeIQElement", spine: []elemSpec{el(nsGenericQ, "q", at("a", "1"))},
+	{name: "Session.EncodeIQElement", ownErrPath: true, spine: []elemSpec{el(nsGenericQ, "q", at("a", "1"))},
 		call: func(x *hx) error {
 			resp, err := x.s.EncodeIQElement(x.ctx, struct {
 				XMLName xml.Name `xml:"urn:q q"`
 			}{}, stanza.IQ{Type: stanza.GetIQ, To: serverJID})
 			return readResponse(x, resp, err)
 		}},
-	{name: "Session.UnmarshalIQ", spine: []elemSpec{el(nsGenericQ, "q", at("a", "1"))}, errReturned: true, variants: 2,
+	{name: "Session.UnmarshalIQ", ownErrPath: true, spine: []elemSpec{el(nsGenericQ, "q", at("a", "1"))}, errReturned: true, variants: 2,
 		call: func(x *hx) error {
 			if x.variant == 1 {
 				return x.s.UnmarshalIQ(x.ctx, genericRequest("g1"), nil)
@@ -244,7 +244,7 @@ var helperSpecs = []*hspec{
 			var v genericPayload
 			return x.s.UnmarshalIQElement(x.ctx, genericQ(), stanza.IQ{Type: stanza.GetIQ, To: serverJID}, &v)
 		}},
-	{name: "Session.IterIQ", spine: []elemSpec{el(nsGenericQ, "q", at("a", "1"))}, errReturned: true, variants: 2,
+	{name: "Session.IterIQ", ownErrPath: true, spine: []elemSpec{el(nsGenericQ, "q", at("a", "1"))}, errReturned: true, variants: 2,
 		call: func(x *hx) error {
 			iter, start, err := x.s.IterIQ(x.ctx, genericRequest("g1"))
 			if err != nil {
@@ -300,7 +300,7 @@ var helperSpecs = []*hspec{
 		call: func(x *hx) error {
 			return discoItemIter(x, disco.FetchItems(x.ctx, items.Item{JID: serverJID, Node: "n1"}, x.s))
 		}},
-	{name: "disco.WalkItem", spine: []elemSpec{itemsQuery}, elems: itemsElems,
+	{name: "disco.WalkItem", ownErrPath: true, spine: []elemSpec{itemsQuery}, elems: itemsElems,
 		call: func(x *hx) error {
 			n := 0
 			return disco.WalkItem(x.ctx, items.Item{JID: serverJID, Node: "n1"}, x.s, func(level int, item items.Item, err error) error {
@@ -329,12 +329,12 @@ var helperSpecs = []*hspec{
 			x.note("%d items, version %q, Err()=%v", n, it.Version(), it.Err())
 			return firstErr(it.Err(), it.Close())
 		}},
-	{name: "roster.Set", spine: []elemSpec{el(nsRoster, "query", at("ver", "v1"))},
+	{name: "roster.Set", ownErrPath: true, spine: []elemSpec{el(nsRoster, "query", at("ver", "v1"))},
 		elems: []elemSpec{el(nsRoster, "item", at("jid", "a@example.org"))},
 		call: func(x *hx) error {
 			return roster.Set(x.ctx, x.s, roster.Item{JID: otherJID, Name: "n", Group: []string{"g"}})
 		}},
-	{name: "roster.Delete", spine: []elemSpec{el(nsRoster, "query", at("ver", "v1"))},
+	{name: "roster.Delete", ownErrPath: true, spine: []elemSpec{el(nsRoster, "query", at("ver", "v1"))},
 		call: func(x *hx) error { return roster.Delete(x.ctx, x.s, otherJID) }},
 
 	// ---- blocklist
@@ -354,17 +354,17 @@ var helperSpecs = []*hspec{
 			x.note("%d items, Err()=%v", n, it.Err())
 			return firstErr(it.Err(), it.Close())
 		}},
-	{name: "blocklist.Add", spine: []elemSpec{el(nsBlocking, "block")}, elems: []elemSpec{el(nsBlocking, "item", at("jid", "a@example.org"))},
+	{name: "blocklist.Add", ownErrPath: true, spine: []elemSpec{el(nsBlocking, "block")}, elems: []elemSpec{el(nsBlocking, "item", at("jid", "a@example.org"))},
 		call: func(x *hx) error { return blocklist.Add(x.ctx, x.s, otherJID) }},
-	{name: "blocklist.Remove", spine: []elemSpec{el(nsBlocking, "unblock")}, elems: []elemSpec{el(nsBlocking, "item", at("jid", "a@example.org"))},
+	{name: "blocklist.Remove", ownErrPath: true, spine: []elemSpec{el(nsBlocking, "unblock")}, elems: []elemSpec{el(nsBlocking, "item", at("jid", "a@example.org"))},
 		call: func(x *hx) error { return blocklist.Remove(x.ctx, x.s, otherJID) }},
-	{name: "blocklist.Report", spine: []elemSpec{el(nsBlocking, "block")},
+	{name: "blocklist.Report", ownErrPath: true, spine: []elemSpec{el(nsBlocking, "block")},
 		call: func(x *hx) error {
 			return blocklist.Report(x.ctx, x.s, blocklist.Item{JID: otherJID, Reason: blocklist.ReasonSpam, Text: "t"})
 		}},
 
 	// ---- pubsub and bookmarks
-	{name: "pubsub.Fetch", errReturned: true,
+	{name: "pubsub.Fetch", ownErrPath: true, errReturned: true,
 		spine: []elemSpec{pubsubRoot, el(nsPubsub, "items", at("node", "n1")), el(nsPubsub, "item", at("id", "i1"))},
 		elems: append([]elemSpec{el(nsPubsub, "items", at("node", "n1")), el(nsPubsub, "item", at("id", "i1")), el("urn:app", "entry", at("a", "1"))}, rsmElems...),
 		call: func(x *hx) error {
@@ -509,7 +509,7 @@ var helperSpecs = []*hspec{
 			}
 			return err
 		}},
-	{name: "muc.SetConfig", spine: []elemSpec{el(nsMUCOwner, "query")},
+	{name: "muc.SetConfig", ownErrPath: true, spine: []elemSpec{el(nsMUCOwner, "query")},
 		call: func(x *hx) error { return muc.SetConfig(x.ctx, roomJID.Bare(), testForm(), x.s) }},
 	{name: "muc.Channel.SetAffiliation", errReturned: true, joined: true,
 		spine: []elemSpec{el(nsMUCAdmin, "query")}, elems: []elemSpec{el(nsMUCAdmin, "item", at("affiliation", "member"), at("jid", "a@example.org")), el(nsMUCAdmin, "reason")},
@@ -532,7 +532,7 @@ var helperSpecs = []*hspec{
 			x.note("%d commands, Err()=%v", n, it.Err())
 			return firstErr(it.Err(), it.Close())
 		}},
-	{name: "commands.Command.Execute", errReturned: true,
+	{name: "commands.Command.Execute", ownErrPath: true, errReturned: true,
 		spine: []elemSpec{el(nsCommands, "command", at("status", "executing"), at("node", "n1"), at("sessionid", "s1"))},
 		elems: append([]elemSpec{
 			el(nsCommands, "actions", at("execute", "next")), el(nsCommands, "next"), el(nsCommands, "prev"), el(nsCommands, "complete"),
@@ -546,7 +546,7 @@ var helperSpecs = []*hspec{
 			x.note("response status=%q node=%q sid=%q", resp.Status, resp.Node, resp.SID)
 			return firstErr(commandPayload(x, payload), payload.Close())
 		}},
-	{name: "commands.Command.ForEach", errReturned: true,
+	{name: "commands.Command.ForEach", ownErrPath: true, errReturned: true,
 		spine: []elemSpec{el(nsCommands, "command", at("status", "executing"), at("node", "n1"), at("sessionid", "s1"))},
 		elems: []elemSpec{el(nsCommands, "actions", at("execute", "next")), el(nsCommands, "next"), el(nsCommands, "note", at("type", "info")), el(nsData, "x", at("type", "form"))},
 		call: func(x *hx) error {
